@@ -254,12 +254,12 @@ def _py_range(start_or_stop, stop, step):
   return range(start_or_stop)
 
 
-def enumerate_(s, start=0):
-  enumerate_override = registry_lookup(enumerate_registry, s)
+def enumerate_(iterable, start=0):
+  enumerate_override = registry_lookup(enumerate_registry, iterable)
   if enumerate_override is not None:
-    return enumerate_override(s, start)
+    return enumerate_override(iterable, start)
   ### Implement your own operator here. ###
-  return _py_enumerate(s, start)
+  return _py_enumerate(iterable, start)
 
 
 def _py_enumerate(s, start=0):
